@@ -479,6 +479,16 @@ def specApplied (x out : Img Rat) (mask : Nat → Nat → Bool) (b0 b1 : Nat) (p
       !(decide (i < x.n0) && decide (j < x.n1)) ||
         decide (out.get i j = p.X (fg.2 / nb1 * b0 + o.1) (fg.2 % nb1 * b1 + o.2))))
 
+/-- **"a permutation of whole blocks"**: the selected blocks of the output are, as a multiset of whole blocks, the selected
+blocks of the working array -/
+def specBlockMultiset (x out : Img Rat) (mask : Nat → Nat → Bool) (b0 b1 : Nat) (padMode part : Bool) : Bool :=
+  let p := prepare x mask b0 b1 padMode
+  let nb0 := nBlocks p.N0 b0
+  let nb1 := nBlocks p.N1 b1
+  let idx := selected p.M b0 b1 nb0 nb1 part
+  (idx.map (fun f => blockKey out.get b0 b1 b0 b1 (f / nb1) (f % nb1))).isPerm
+    (idx.map (fun g => blockKey p.X b0 b1 b0 b1 (g / nb1) (g % nb1)))
+
 /-- is `nidx` a rearrangement of the ascending list `idx` (decided by sorting) -/
 def isPermOfSorted (nidx idx : List Nat) : Bool :=
   nidx.mergeSort (fun a b => decide (a ≤ b)) == idx
